@@ -914,3 +914,199 @@ pub fn c09_openssl_replay(v: &serde_json::Value) -> CaseResult {
         .collect();
     openssl_client_cell(cells.get(i).ok_or("no such cell")?)
 }
+
+// ---------------------------------------------------------------------------------------------
+// Sequences of peers against ONE server: what a peer gets must not depend on who came before
+
+use proptest::prelude::*;
+use serde::{Deserialize, Serialize};
+
+/// (certificate name, valid without authorization, valid with authorization, role)
+const SEQ_CERTS: [(&str, bool, bool, Option<&str>); 9] = [
+    ("client_operator", true, true, Some("operator")),
+    ("client_viewer", true, true, Some("viewer")),
+    ("client_utf8role", true, true, Some("Bediener Ölförderung 操作员")),
+    ("client_spacerole", true, true, Some("night shift operator")),
+    ("client_norole", true, false, None),
+    ("client_tworoles", true, false, None),
+    ("client_expired", false, false, None),
+    ("client_ca2", false, false, None),
+    ("", false, false, None),
+];
+
+#[derive(Clone, Debug, PartialEq, Eq, Hash, Serialize, Deserialize)]
+pub struct SeqCase {
+    pub min: u8,
+    pub authz: bool,
+    /// (index into the certificate table, versions offered: 0 = 1.2 only, 1 = 1.3 only, 2 = both,
+    /// the connection is kept open while the later peers connect)
+    pub peers: Vec<(u8, u8, bool)>,
+}
+
+pub fn arb_seq() -> BoxedStrategy<SeqCase> {
+    (
+        prop_oneof![Just(12u8), Just(13u8)],
+        prop::bool::weighted(0.8),
+        proptest::collection::vec(
+            (
+                prop_oneof![6 => 0u8..4, 3 => 4u8..6, 2 => 6u8..9],
+                prop_oneof![1 => Just(0u8), 1 => Just(1u8), 3 => Just(2u8)],
+                any::<bool>(),
+            ),
+            2..7,
+        ),
+    )
+        .prop_map(|(min, authz, peers)| SeqCase { min, authz, peers })
+        .boxed()
+}
+
+pub fn check_seq(case: &SeqCase) -> CaseResult {
+    super::retry3(|slow| {
+        let rt = rt(2);
+        let case = case.clone();
+        rt.block_on(async move { run_seq(&case, slow).await })
+    })
+}
+
+async fn run_seq(case: &SeqCase, slow: u32) -> CaseResult {
+    let wait = Duration::from_millis(1500 * slow as u64);
+    let cfg = TlsServerConfig::new(
+        &path("ca1", "pem"),
+        &path("server_ok", "pem"),
+        &path("server_ok", "key"),
+        None,
+        min_tls(case.min),
+        rodbus::client::CertificateMode::AuthorityBased,
+    )
+    .map_err(|e| format!("INFRA: TlsServerConfig::new failed: {}", e))?;
+    let listener = TcpListener::bind("127.0.0.1:0").await.map_err(|e| format!("INFRA: {}", e))?;
+    let addr = listener.local_addr().unwrap();
+    let calls = Arc::new(Mutex::new(0u32));
+    let roles = Arc::new(Mutex::new(Vec::new()));
+    let map = ServerHandlerMap::single(UnitId::new(1), Sentinel { calls: calls.clone() }.wrap());
+    let (handle, task) = if case.authz {
+        rodbus::server::create_tls_server_task_with_authz(
+            16,
+            listener,
+            map,
+            Arc::new(RoleRecorder { roles: roles.clone() }),
+            cfg,
+            AddressFilter::Any,
+            DecodeLevel::nothing(),
+        )
+    } else {
+        rodbus::server::create_tls_server_task(16, listener, map, cfg, AddressFilter::Any, DecodeLevel::nothing())
+    };
+    let join = tokio::spawn(task.run());
+    let mut kept = Vec::new();
+    let mut ok = CaseOk::new();
+    let mut distinct_roles: Vec<&str> = Vec::new();
+    let mut refused_after_served = false;
+    let mut any_served = false;
+    for (k, (ci, off, keep)) in case.peers.iter().enumerate() {
+        let (cert, valid_plain, valid_authz, role) = SEQ_CERTS[*ci as usize % SEQ_CERTS.len()];
+        let offer = match off {
+            0 => Offer::V12,
+            1 => Offer::V13,
+            _ => Offer::Both,
+        };
+        let expect = (if case.authz { valid_authz } else { valid_plain }) && offer.max() >= case.min;
+        let roles_before = roles.lock().unwrap().len();
+        let calls_before = *calls.lock().unwrap();
+        let connector = tokio_rustls::TlsConnector::from(peer_client_config(offer, if cert.is_empty() { None } else { Some(cert) }));
+        let tcp = TcpStream::connect(addr).await.map_err(|e| format!("INFRA: connect {}", e))?;
+        let name = ServerName::try_from("test.com").unwrap();
+        let mut served = false;
+        let mut version = None;
+        if let Ok(Ok(mut tls)) = tokio::time::timeout(wait, connector.connect(name, tcp)).await {
+            version = tls.get_ref().1.protocol_version().map(|v| match v {
+                rustls::ProtocolVersion::TLSv1_2 => 12u8,
+                rustls::ProtocolVersion::TLSv1_3 => 13u8,
+                _ => 0,
+            });
+            let tx = 100 + k as u16;
+            if tls.write_all(&mbap_frame(tx, 1, &[3, 0, 0, 0, 1])).await.is_ok() {
+                let mut buf = [0u8; 64];
+                let mut got = Vec::new();
+                loop {
+                    match tokio::time::timeout(wait, tls.read(&mut buf)).await {
+                        Ok(Ok(0)) | Ok(Err(_)) | Err(_) => break,
+                        Ok(Ok(n)) => {
+                            got.extend_from_slice(&buf[..n]);
+                            if got.len() >= 11 {
+                                break;
+                            }
+                        }
+                    }
+                }
+                if got == mbap_frame(tx, 1, &[3, 2, 0xBE, 0xEF]) {
+                    served = true;
+                } else if !got.is_empty() {
+                    return Err(format!("peer {} ({:?}): unexpected bytes from the TLS server: {:?}", k, cert, got));
+                }
+            }
+            if *keep {
+                kept.push(tls);
+            }
+        }
+        let history: Vec<&str> = case.peers[..k].iter().map(|p| SEQ_CERTS[p.0 as usize % SEQ_CERTS.len()].0).collect();
+        let describe = format!(
+            "server (authority mode, min TLS 1.{}, authorization {}), peer no. {} with certificate {:?} offering {} after peers {:?}",
+            case.min - 10,
+            if case.authz { "on" } else { "off" },
+            k + 1,
+            cert,
+            offer.name(),
+            history
+        );
+        if served != expect {
+            return Err(format!(
+                "{}: was {} but must be {}",
+                describe,
+                if served { "served" } else { "refused" },
+                if expect { "served" } else { "refused" }
+            ));
+        }
+        let new_roles: Vec<String> = roles.lock().unwrap()[roles_before..].to_vec();
+        if served {
+            match version {
+                Some(v) if v >= case.min => {}
+                other => return Err(format!("{}: negotiated version {:?} is below the configured minimum", describe, other)),
+            }
+            if case.authz {
+                let want = role.unwrap_or("");
+                if new_roles != vec![want.to_string()] {
+                    return Err(format!(
+                        "{}: the authorization handler saw roles {:?}, the certificate's role extension is {:?}",
+                        describe, new_roles, want
+                    ));
+                }
+                if !distinct_roles.contains(&want) {
+                    distinct_roles.push(want);
+                }
+            }
+            any_served = true;
+        } else {
+            if *calls.lock().unwrap() != calls_before || !new_roles.is_empty() {
+                return Err(format!(
+                    "{}: the refused peer reached the application (roles {:?})",
+                    describe, new_roles
+                ));
+            }
+            if any_served {
+                refused_after_served = true;
+            }
+        }
+    }
+    drop(kept);
+    drop(handle);
+    let _ = tokio::time::timeout(wait, join).await;
+    if distinct_roles.len() >= 2 {
+        ok.label("two_roles_on_one_server");
+    }
+    if refused_after_served {
+        ok.label("refused_after_a_served_peer");
+    }
+    ok.nontrivial = distinct_roles.len() >= 2 || refused_after_served;
+    Ok(ok)
+}
